@@ -27,6 +27,7 @@ MSyInit == SyInit /\ hist = <<>> /\ nenv = 0
 \*  - at most one sync-peer candidate can be chosen at any time (the code picks randomly among several)
 DeterministicChoice == \A r \in {rows} : Cardinality(Candidates(pk, rows)) <= 1 \/ syncPeer # 0
 
+NConn == Cardinality({k \in 1 .. Len(hist) : hist[k].kind = "env" /\ hist[k].op = "connect"})
 LogEnv(rec) == hist' = Append(hist, rec @@ [kind |-> "env"]) /\ nenv' = nenv + 1
 Pending == {q \in Peers : nd[q].conn /\ nq[q] # <<>>}
 \* phase 2: after the MaxEnv environment events every connected node keeps answering (lowest id first) until nothing is asked
@@ -38,7 +39,7 @@ MDrain ==
 MEnv ==
   /\ mq = <<>> /\ nenv < MaxEnv
   /\ \/ \E p \in Peers, b \in {0} \cup (1 .. NB) :
-          /\ Cardinality({k \in 1 .. Len(hist) : hist[k].kind = "env" /\ hist[k].op = "connect"}) < MaxConnects
+          /\ NConn < MaxConnects
           /\ \/ Connect(p, b) /\ LogEnv([op |-> "connect", p |-> p, b |-> b, banned |-> FALSE])
              \/ ConnectBanned(p, b) /\ LogEnv([op |-> "connect", p |-> p, b |-> b, banned |-> TRUE])
      \/ \E p \in Peers : NodeReply(p) /\ LogEnv([op |-> "reply", p |-> p, ids |-> ReplyIds(p, Head(nq[p]))])
@@ -50,7 +51,8 @@ MMgr == MgrStep /\ hist' = Append(hist, [kind |-> "mgr"] @@ Obs) /\ UNCHANGED ne
 
 MSyNext == MMgr \/ MEnv \/ MDrain
 MSySpec == MSyInit /\ [][MSyNext]_msyvars /\ WF_msyvars(MMgr)
-SyView == syvars
+\* everything that guards an action must be in the view, or TLC merges states with different futures
+SyView == <<syvars, nenv, NConn>>
 
 \* random choice among several candidates: only single-candidate situations are generated for replay
 ChoiceConstraint == Cardinality(Candidates(pk, rows)) <= 1 \/ syncPeer # 0 \/ mq = <<>>
